@@ -122,8 +122,6 @@ def check_enum(case, rec):
         shift = L
     if case.get('int_dtype') and not case.get('scale_exp') and not case.get('gain') and not case.get('loud_prefix'):
         x = np.array(case['x']).astype(case['int_dtype'])      # raw counts, negative ones included
-        base = {'int8': 100, 'int16': 17000, 'int32': 2 ** 30 + 5, 'int64': 2 ** 62 + 3}[case['int_dtype']] if case.get('int_offset') else 0
-        x = (x + np.array(base, dtype=x.dtype) * (1 if case.get('int_offset', 0) > 0 else -1)).astype(case['int_dtype'])      # unipolar counts above half the range of the dtype (every value still fits)
     if case.get('ulp_base'):
         # a trace riding on an offset and quantised at the last bit of its dtype: neighbouring levels are adjacent floats, so the
         # halfway level of a flank between adjacent levels rounds onto one of its two extrema
@@ -202,7 +200,7 @@ def strat_raw(draw, tier):
         case.update(scale_exp=0, gain=None, loud_prefix=0,
                     ulp_base=draw(st.sampled_from([[1.0, 'float64'], [1000.0, 'float32'], [-3.0e7, 'float64'], [0.1, 'float64'], [65504.0, 'float32']])))
     elif special == 2:
-        case.update(scale_exp=0, gain=None, loud_prefix=0, int_dtype=draw(st.sampled_from(['int64', 'int32', 'int16', 'int8'])), int_offset=draw(st.sampled_from([0, 0, 1, -1])))
+        case.update(scale_exp=0, gain=None, loud_prefix=0, int_dtype=draw(st.sampled_from(['int64', 'int32', 'int16', 'int8'])))
     elif special == 1:
         dt, pre = draw(st.sampled_from([['int32', 0], ['int16', 0], ['uint16', 0], ['uint8', 0], ['int16', 16384 + 300], ['int16', 30000], ['uint16', 33000], ['uint16', 60000], ['int32', 70000]]))
         case.update(loud_prefix=0, idx_dtype=dt, quiet_prefix=pre)
